@@ -8,6 +8,9 @@ R-C12-2: nothing timing-dependent can flow into a vector or coefficient table: f
          an array element.  (A dynamic schedule, an atomic or a critical section on a loop whose iterations write disjoint
          elements changes no result and is not reported; several updates of one element in one barrier group are R-C12-1's,
          atomic or not.  omp_get_thread_num() is outside the model: undecided, not a violation.)
+R-C12-4: no scalar is carried from one iteration of a worksharing loop to a later one (a running counter, a "previous"
+         value): iterations are handed to threads in chunks, so such a value depends on thread count and schedule even when
+         the variable is thread-private and there is no data race.
 R-C12-3: the element-wise vector kernels compute their mathematical definition element by element (exact tables).
 Not decided: the size of the re-association difference of the scalar reductions between thread counts; rounding.
 """
@@ -20,6 +23,7 @@ def main(tier):
     ck = report.Check("C12", tier, level="other", technique="static effect analysis (one writer per element per barrier group, fixed group order) + structural taint rules on OpenMP clauses and reduction results")
     ck.rule("R-C12-1", "each element written by at most one unit per barrier group; groups ordered by program text", floor=60)
     ck.rule("R-C12-2", "floating-point reductions only in the scalar kernels, statically scheduled, results stay scalar", floor=10)
+    ck.rule("R-C12-4", "no loop-carried scalar in a worksharing loop (a value read in an iteration that an earlier iteration wrote, outside a reduction)", floor=60)
     ck.rule("R-C12-3", "element-wise and reduction kernels equal their definition (exact values); no out-of-range access", floor=3)
     prog = eff_runs.load()
     ck.units += prog.units
@@ -45,6 +49,15 @@ def main(tier):
                     bad = (name, idx, group, len(units))
                     break
             dyn = getattr(r, "schedule", None)
+            # R-C12-4: a scalar that one iteration of a worksharing loop reads after an EARLIER iteration wrote it: iterations are
+            # handed to threads in chunks, so the value depends on the thread count and the schedule (running counters, "previous"
+            # values); reduction variables are combined by the runtime and are exempt
+            ck.instance("R-C12-4", key, nontrivial=bool(r.loops))
+            if r.carried:
+                nm, at, lp = r.carried[0]
+                ck.violation("R-C12-4", "%s:%s" % (r.fn.split("(")[0], nm), at, "%s: the variable `%s` is read at %s in an iteration of the worksharing loop at %s after an earlier iteration wrote it: its value depends on which iterations the executing thread was given" % (sk, nm, at, lp))
+            else:
+                ck.ok("R-C12-4", key)
             if bad:
                 ck.violation("R-C12-1", "%s:%s" % (r.fn.split("(")[0], bad[0].split("#")[0]), r.site,
                              "%s: element %s of %s is written by %d units of work in barrier group %s: the order of the updates depends on the schedule" % (sk, bad[1], bad[0], bad[3], bad[2]))
